@@ -196,7 +196,8 @@ def run(tier: str) -> int:
         if len(samples) < 4 and i % 37 == 0:
             samples.append({"nodes": nodes, "detail": detail, "outcome": pv["outcome"], "records": [r.get("record_type") for r in t1["records"]]})
     # ---- a class derived from a concrete processor, traced after its parent was: same records as in a fresh interpreter ------
-    for parent, child, ctx0 in (("TOp1Def", "TOp1DefSub", {}), ("TOp2", "TOp2Sub", {"a": "A", "b": "B"}), ("TOp1", "TOp1Sub", {"a": "A"})):
+    for parent, child, ctx0 in (("TOnlyHereParent", "TOnlyHereChild", {}), ("TOp1Def", "TOp1DefSub", {}), ("TOp2", "TOp2Sub", {"a": "A", "b": "B"}),
+                                ("TOp1", "TOp1Sub", {"a": "A"})):
         detail = "all"
         tracegen.traced_run([{"processor": "TSourceDef"}, {"processor": parent}], {"a": "A"}, detail=detail)
         nodes = [{"processor": "TSourceDef"}, {"processor": child}, {"processor": parent}]
@@ -208,6 +209,23 @@ def run(tier: str) -> int:
             compare_traces(rep, {"nodes": nodes, "initial_context": ctx0, "history": f"a traced run of {parent} earlier in the process"},
                            json.loads(json.dumps(here["records"], default=str)), fr, "fresh-process-vs-after-parent-class", detail, False,
                            already_normalised_b=True)
+    # ---- shorthand processors whose generated classes share a name, the earlier pipeline still alive: same records as in a fresh interpreter
+    keep_alive = []
+    for y, x, ctx0 in (('template:"x{a}":tag', 'template:"y{b}_{a}":tag', {"a": 1, "b": 2}), ("rename:m_n:out1", "rename:m.n:out1", {"m.n": 1, "m_n": 2}),
+                       ("delete:run_id", "delete:run.id", {"run.id": 1, "run_id": 2})):
+        detail = "all"
+        first = tracegen.traced_run([{"processor": "TSourceDef"}, {"processor": y}], ctx0, detail=detail)
+        keep_alive.append(first["res"].get("pipeline"))
+        nodes = [{"processor": "TSourceDef"}, {"processor": x}, {"processor": "TOp0"}]
+        here = tracegen.traced_run(nodes, ctx0, detail=detail)
+        with rt.tempdir() as d:
+            fr = fresh_process_records(nodes, ctx0, detail, d)
+        if fr is not None:
+            stats["repro_fresh_process_shorthand_history"] = stats.get("repro_fresh_process_shorthand_history", 0) + 1
+            compare_traces(rep, {"nodes": nodes, "initial_context": ctx0, "history": f"a pipeline with {y} ran earlier and is still alive"},
+                           json.loads(json.dumps(here["records"], default=str)), fr, "fresh-process-vs-after-similar-shorthand", detail, False,
+                           already_normalised_b=True)
+    del keep_alive
     exotic_payloads(rep, stats)
     hostile_data(rep, stats)
     launch_outcomes(rep, stats)
@@ -355,11 +373,35 @@ def launch_outcomes(rep, stats):
 EXOTIC_VALUES = {
     "nan": float("nan"), "inf": float("inf"), "-inf": float("-inf"), "lone-surrogate": "r\udce9sultat", "astral": "\U0001d6fc-\U0001f600",
     "huge-int": 10 ** 30, "bytes": b"ab\xff", "tuple": (1, 2), "set": {1}, "complex": 1 + 2j, "long-string": "x" * 5000,
+    "date": __import__("datetime").date(2024, 1, 2), "datetime": __import__("datetime").datetime(2024, 1, 2, 3, 4, 5), "frozenset": frozenset({1}),
     "control-chars": "a\x00b\x1fc\n", "nested-nan": {"k": [float("nan")]}, "empty-string": "", "multi-line": "first line\nsecond line\n",
     # mappings whose keys cannot be ordered against each other, or are not strings at all
     "mixed-key-dict": {1: "a", "b": 2}, "none-key-dict": {None: 1, "a": 2}, "tuple-key-dict": {(1, 2): 3}, "int-key-dict": {2: "x", 10: "y"},
     "nested-mixed-keys": {"outer": [{1: "a", "b": 2}]}, "bool-int-keys": {True: "t", 2: "two"}, "float-str-keys": {1.5: "f", "s": 0},
 }
+try:
+    import numpy as _np
+
+    class _Elementwise:
+        """A value whose == is element-wise (like arrays, series, symbolic expressions): the result has no truth value."""
+        def __init__(self, xs):
+            self.xs = list(xs)
+
+        def __eq__(self, other):
+            class _NoTruth(list):
+                def __bool__(self):
+                    raise ValueError("The truth value of an element-wise comparison is ambiguous")
+            return _NoTruth([a == b for a, b in zip(self.xs, getattr(other, "xs", []))])
+
+        __hash__ = None
+
+        def __repr__(self):
+            return f"Elementwise({self.xs!r})"
+
+    EXOTIC_VALUES.update({"numpy-array": _np.array([1.0, 2.0, 3.0]), "numpy-empty-array": _np.array([]), "numpy-2d": _np.ones((2, 2)),
+                          "numpy-scalar": _np.float64(2.5), "numpy-int": _np.int64(7), "elementwise-eq": _Elementwise([1, 2])})
+except Exception:  # noqa: BLE001  (numpy is a dependency of semantiva; the values are simply left out if it is missing)
+    pass
 FAILING_NODES = ["TFail", "TFailEmpty", "TFailKeyObj", "TFailKw", "TFailKI"]
 
 
@@ -378,10 +420,13 @@ def exotic_parameters(rep, stats):
         except Exception:
             return repr(x)
     for kind, val in EXOTIC_VALUES.items():
-        for where in ("node-config", "context", "error-message"):
+        for where in ("node-config", "context", "error-message", "sweep-values"):
             if where == "error-message" and not isinstance(val, str):
                 continue
             def build():
+                if where == "sweep-values":
+                    return [{"processor": "TSource", "derive": {"parameter_sweep": {"parameters": {"v": "(t,)"}, "variables": {"t": [val, 1]},
+                                                                                   "collection": "TColl"}}}, {"processor": "TMerge"}], {}
                 if where == "node-config":
                     return [{"processor": "TSource", "parameters": {"v": val}}, {"processor": "TOp0"}], {}
                 if where == "context":
